@@ -446,9 +446,19 @@ func TestVerif_C02(t *testing.T) {
 		}
 		legacyCfg[e] = p
 	}
+	// remote serving: the same epochs with the CAR and every index file fetched over HTTP (loopback file server,
+	// Range requests) through the remote-file reader, its range cache and the prefetching index readers
+	remoteBase, stopRemote := vkServeFiles()
+	defer stopRemote()
+	remoteCfg := map[*vEpoch]string{}
+	for _, e := range eps {
+		saved := e.ConfigPath
+		remoteCfg[e] = e.writeConfig(vkConfigOpts{Name: "config-remote", NoGsfa: true, RemoteBase: remoteBase})
+		e.ConfigPath = saved
+	}
 	type c02Cfg struct {
 		mask, conc int
-		legacy     int // 0 = current formats, 1 = every epoch legacy, 2 = only the middle epoch legacy
+		legacy     int // 0 = current formats, 1 = every epoch legacy, 2 = only the middle epoch legacy, 3 = every epoch served over HTTP, 4 = only the middle epoch over HTTP
 	}
 	var cfgs []c02Cfg
 	for _, mask := range subsets {
@@ -464,6 +474,8 @@ func TestVerif_C02(t *testing.T) {
 		cfgs = append(cfgs, c02Cfg{mask, concs[len(concs)-1], 1})
 	}
 	cfgs = append(cfgs, c02Cfg{7, 1, 2})
+	cfgs = append(cfgs, c02Cfg{7, concs[len(concs)-1], 3}, c02Cfg{2, 1, 3}, c02Cfg{7, 1, 4})
+	R.Bounds["remote_http_configurations"] = 3
 	R.Bounds["legacy_format_configurations"] = len(legacyMasks) + 1
 	idx := int64(0)
 	for _, cf := range cfgs {
@@ -479,7 +491,7 @@ func TestVerif_C02(t *testing.T) {
 			}
 			cfgName := fmt.Sprintf("epochs=%03b conc=%d", mask, conc)
 			if cf.legacy != 0 {
-				cfgName += fmt.Sprintf(" legacy-format=%d", cf.legacy)
+				cfgName += []string{"", " legacy-format=all", " legacy-format=middle-epoch", " remote-http=all", " remote-http=middle-epoch"}[cf.legacy]
 			}
 			var loaded []*vEpoch
 			// two worlds per configuration, each with a cache of its own: passes 0 (ascending, cold) and 1
@@ -497,6 +509,9 @@ func TestVerif_C02(t *testing.T) {
 					cfgPath := e.ConfigPath
 					if cf.legacy == 1 || (cf.legacy == 2 && i == 1) {
 						cfgPath = legacyCfg[e]
+					}
+					if cf.legacy == 3 || (cf.legacy == 4 && i == 1) {
+						cfgPath = remoteCfg[e]
 					}
 					ep, err := vkLoadEpoch(cfgPath, cache)
 					if err != nil {
@@ -539,5 +554,6 @@ func TestVerif_C02(t *testing.T) {
 			}()})
 		}
 	}
+	R.Add("remote_http_requests_served", vkServedRequests.Load())
 	_ = strings.TrimSpace
 }
